@@ -928,7 +928,11 @@ pixman_image_fill_boxes (pixman_op_t           op,
         op = PIXMAN_OP_SRC;
     }
 
-    if (op == PIXMAN_OP_SRC)
+    /* The direct fill writes the colour's alpha into the image itself;
+     * with an alpha map the alpha belongs there, and only the pixels
+     * covered by the map may be touched: composite instead.
+     */
+    if (op == PIXMAN_OP_SRC && !dest->common.alpha_map)
     {
         uint32_t pixel;
 
